@@ -138,6 +138,11 @@ def _cvc5_worker(args):
     return name, out, None, int((time.time() - t0) * 1000), 'cvc5'
 
 
+def _any_worker(job):
+    kind, args = job
+    return _z3_worker(args) if kind == 'z3' else _cvc5_worker(args)
+
+
 def discharge(obls, timeout_ms=10000, workers=None, use_cvc5=True, cvc5_timeout_ms=None, portfolio=True):
     """obls: list of Obligation -> dict name -> dict(verdict, backend, ms, model)
     verdict: proved (unsat) / refuted (sat) / unknown.
@@ -162,20 +167,27 @@ def discharge(obls, timeout_ms=10000, workers=None, use_cvc5=True, cvc5_timeout_
             res[name] = dict(raw=r, model=model, ms=ms, backend=be)
         unk = [n for n in texts if res[n]['raw'] == 'unknown']
         if unk and portfolio:
-            jobs = [(n, texts[n], timeout_ms, True, label) for n in unk for label in CONFIGS]
-            for name, r, model, ms, be in ex.map(_z3_worker, jobs, chunksize=1):
+            # phase 2: the other z3 configurations AND cvc5 side by side (cvc5 is deterministic and decides many of the string /
+            # nonlinear obligations in well under a second); the first `unsat` wins
+            jobs = [('z3', (n, texts[n], timeout_ms, True, label)) for n in unk for label in CONFIGS if label != 'z3']
+            jobs += [('z3', (n, texts[n], timeout_ms, True, 'z3')) for n in unk if first < timeout_ms]
+            if use_cvc5:
+                jobs += [('cvc5', (n, texts[n], cvc5_timeout_ms or timeout_ms, False)) for n in unk]
+            for name, r, model, ms, be in ex.map(_any_worker, jobs, chunksize=1):
                 cur = res[name]
                 if r != 'unknown' and (cur['raw'] == 'unknown' or ms < cur.get('won_ms', 1 << 60)):
-                    res[name] = dict(raw=r, model=model, ms=ms, backend=be, won_ms=ms,
+                    if r == 'sat' and be != 'z3':
+                        continue
+                    res[name] = dict(raw=r, model=model if model is not None else cur.get('model'), ms=ms, backend=be, won_ms=ms,
                                      configs=dict(cur.get('configs', {}), **{be: ms}))
                 elif r != 'unknown':
                     cur.setdefault('configs', {})[be] = ms
-        if use_cvc5:
+        elif use_cvc5:
             unk = [n for n in texts if res[n]['raw'] == 'unknown']
             if unk:
                 jobs = [(n, texts[n], cvc5_timeout_ms or timeout_ms, False) for n in unk]
                 for name, r, model, ms, be in ex.map(_cvc5_worker, jobs, chunksize=1):
-                    if r != 'unknown':
+                    if r == 'unsat':
                         res[name] = dict(raw=r, model=res[name]['model'], ms=res[name]['ms'] + ms, backend=be)
                     else:
                         res[name]['ms'] += ms
